@@ -8,6 +8,7 @@ import (
 	"strconv"
 	"strings"
 	"sync"
+	"time"
 
 	"github.com/b2broker/simplefix-go/fix"
 	"github.com/b2broker/simplefix-go/session"
@@ -154,7 +155,7 @@ func judge(c *vk.Ctx, tr *tracker, b, e int, lastAtCall int, res rig.StepResult,
 
 func main() {
 	c := vk.Init("C10")
-	c.Rule("(1) EXHAUSTIVE: for K in 1..8 outbound messages of mixed kinds (Logon/Logon reply, application sends, Heartbeat replies to TestRequests, Rejects of damaged messages), both roles, classes fresh-objects and reused-object: every ResendRequest(b,e) with (b,e) in [0,K+2]^2 on a fresh session; first transmissions are recorded from Outgoing() as emitted and compared byte for byte. (2) random sessions with K up to 200 and up to 12 repeated/overlapping requests each. (3) Logon gap: counter store preset to c, Logon with 34=r, all (c,r) in [0,6]x[1,8], both roles: r>c+1 must draw a ResendRequest with 7=c+1; and the same at a second logon of one session (after its own Logout was answered, or after the peer's Logout), the second Logon skipping 0, 1 or 3 numbers. (4) thorough: 3 goroutines send while requests are fed; retransmissions must be byte-identical, contiguous b..n with n between last-sent-at-call and last-sent-at-return. distinct = (role,class,K,b,e,traffic); non-trivial = request inside the sent range or e=0")
+	c.Rule("(1) EXHAUSTIVE: for K in 1..8 outbound messages of mixed kinds (Logon/Logon reply, application sends, Heartbeat replies to TestRequests, Rejects of damaged messages), both roles, classes fresh-objects and reused-object: every ResendRequest(b,e) with (b,e) in [0,K+2]^2 on a fresh session; first transmissions are recorded from Outgoing() as emitted and compared byte for byte. (2) random sessions with K up to 200 and up to 12 repeated/overlapping requests each. (3) Logon gap: counter store preset to c, Logon with 34=r, all (c,r) in [0,6]x[1,8], both roles: r>c+1 must draw a ResendRequest with 7=c+1; and the same at a second logon of one session (after its own Logout was answered, or after the peer's Logout), the second Logon skipping 0, 1 or 3 numbers. (3c) real time, N=1: ResendRequest(1,0) arriving while the session's own TestRequest is pending is answered with the stored messages, not rejected. (4) thorough: 3 goroutines send while requests are fed; retransmissions must be byte-identical, contiguous b..n with n between last-sent-at-call and last-sent-at-return. distinct = (role,class,K,b,e,traffic); non-trivial = request inside the sent range or e=0")
 	c.Assume("precondition: no outgoing handler refuses and the store does not fail (every assigned number was saved)")
 	type job struct {
 		role  rig.Role
@@ -367,6 +368,78 @@ func main() {
 				}
 			}
 		}
+	}
+
+	// (3c) real time: the session's own TestRequest is pending (the peer was silent for N+1 s, N=1) when the peer's
+	// ResendRequest arrives: the session is logged on, so the request is answered with the stored messages
+	{
+		nrt := c.Pick(4, 16)
+		var rwg sync.WaitGroup
+		for i := 0; i < nrt; i++ {
+			rwg.Add(1)
+			go func(i int) {
+				defer rwg.Done()
+				role := rig.Role(i % 2)
+				desc := fmt.Sprintf("%s N=1: logon, 3 application sends, 2.3 s of silence (own TestRequest pending), then ResendRequest(1,0)", role)
+				replay := map[string]interface{}{"scenario": desc, "seed": c.Seed}
+				r, err := rig.NewStepRig(rig.StepCfg{Role: role, HeartBtInt: 1, Limits: &session.IntLimits{Min: 1, Max: 60}})
+				if err != nil {
+					return
+				}
+				defer r.Close()
+				p := rig.NewPeer()
+				if res := r.Inbound(p.Logon(1, "0")); !res.Logged {
+					return
+				}
+				for k := 0; k < 3; k++ {
+					r.Do(func() error { return r.S.Send(fixgen.CreateMarketDataRequestReject(fmt.Sprintf("rt-%d-%d", i, k))) })
+				}
+				time.Sleep(2300*time.Millisecond + time.Duration(i*15)*time.Millisecond)
+				first := r.AllOuts()
+				own := 0
+				for _, o := range first {
+					if o.Type == "1" {
+						own++
+					}
+				}
+				if own == 0 {
+					c.Count("realtime_scenarios_without_own_testrequest", 1)
+					return
+				}
+				res := r.Inbound(p.Resend(1, 0))
+				c.Eval(vk.Hash64([]byte(desc), []byte{byte(i)}), true)
+				c.Count("resend_requests_while_own_testrequest_pending", 1)
+				if res.TimedOut {
+					return
+				}
+				// what was sent under each number before the request (timer messages included)
+				sent := map[string][]byte{}
+				for _, o := range first {
+					sent[fixref.GetS(o.Fields, rig.TSeq)] = o.Raw
+				}
+				var got []rig.Out
+				for _, o := range res.Outs {
+					if o.Type == "3" {
+						c.Violate("C10/request-while-own-testrequest-pending-rejected/"+role.String(), fmt.Sprintf("%s: answered with a Reject: %s", desc, vk.Trunc(fixref.Pretty(o.Raw), 250)), replay)
+						return
+					}
+					if _, ok := sent[fixref.GetS(o.Fields, rig.TSeq)]; ok {
+						got = append(got, o)
+					}
+				}
+				if len(got) < len(first) {
+					c.Violate("C10/request-while-own-testrequest-pending-not-answered/"+role.String(), fmt.Sprintf("%s: %d messages had been sent, %d of them were retransmitted", desc, len(first), len(got)), replay)
+					return
+				}
+				for _, o := range got {
+					if !bytes.Equal(o.Raw, sent[fixref.GetS(o.Fields, rig.TSeq)]) {
+						c.Violate("C10/retransmission-not-identical/"+role.String()+"/own-testrequest-pending", fmt.Sprintf("%s: number %s retransmitted as %s", desc, fixref.GetS(o.Fields, rig.TSeq), vk.Trunc(fixref.Pretty(o.Raw), 250)), replay)
+						return
+					}
+				}
+			}(i)
+		}
+		rwg.Wait()
 	}
 
 	// (4) concurrent senders while requests are fed
